@@ -9,7 +9,7 @@ Open Scope Z_scope.
 Definition listed_shard (c : cat) (pt : Z) (s : xshard) : Prop :=
   exists sg cs, In sg (c_sgs c) /\ In cs (sg_shards sg) /\ cs_id cs = xs_id s /\ cs_pt cs = pt /\ cs_ix cs = xs_ix s /\ sg_end sg = xs_end s.
 Definition listed_index (c : cat) (pt : Z) (i : xindex) : Prop :=
-  exists ig ci, In ig (c_igs c) /\ In ci (ig_ixs ig) /\ ci_id ci = xi_id i /\ ci_pt ci = pt /\ ig_end ig = xi_end i.
+  exists ig ci, In ig (c_igs c) /\ In ci (ig_ixs ig) /\ ci_id ci = xi_id i /\ ci_pt ci = pt /\ ig_end ig <= xi_end i.
 
 Record NodeOK (w : xworld) (pt : Z) : Prop := {
   nk_sh : forall s, In s (x_shards w) -> xs_pt s = pt -> listed_shard (x_cat w) pt s;
